@@ -61,7 +61,11 @@ claim("C07",
       "Static, all paths of scan.go/generate.go: file opening only in the $INCLUDE state behind includeAllowed and the depth limit (who-may-call over the whole package), gate fields written only by the setter and gated sub-parser creation, $GENERATE range guard / nested ban / sub-parser flag / wrap-around stop / offset guard, sticky parser and lexer errors with every (_, false) return classified, an inductive (coinductive) proof that every store into the hand-grown token and comment buffers is in bounds, error positions. Termination and memory proportional to the input for all byte strings and the absence of other panics are not decided.",
       STATIC_NOTE, "who-may-call, SSA edge-dominance, interval facts, inductive index/length relation prover over phis")
 
+claim("C06",
+      "Static, all paths: every name field of every parse method completed through toAbsoluteName(token, origin) on success paths (must-pass over success exits), toAbsoluteName's three cases guarded by '@' / IsFqdn / non-empty origin, origin written only by the constructor and $ORIGIN, the three sibling explicit-TTL sites with the exact 'none yet or not by $TTL' update guard, $TTL by-directive, line start defaults, sub-parser inheritance for $INCLUDE and $GENERATE, iterator step/stop. The denotational equalities over all renderings (line-shape state machine outcome, comments/parentheses/quoting, TTL unit arithmetic, $GENERATE text) are not decided.",
+      STATIC_NOTE, "must-pass over success exits (SSA), sibling-guard comparison with edge facts, who-may-write")
+
 _pending = "rules for this property are designed (DESIGN.md §4) but not implemented yet; not claimed until they run"
-for p in ["C02","C03","C05","C06"]:
+for p in ["C02","C03","C05"]:
     na(p, _pending)
 na("C19", "every clause is an equality between index arithmetic on a runtime string and its label sequence; no pairing/ownership/ordering/table structure to decide statically (DESIGN.md §8)")
